@@ -192,7 +192,8 @@ class _Plane3:
     """Modular: `vect` is replaced by its contract (an arbitrary triple n, which VectUtils.vect proves to be
     (pt1-pt2) x (pt1-pt3)); the rest of the body is proved for every n outside the tolerance bands:
     result = lambda * (n, n.pt1) with |(a,b,c)| = 1 and the MCNP orientation."""
-    hooks = {VU.vect: havoc('vect', lambda fresh, v1, v2: (fresh('n1'), fresh('n2'), fresh('n3')))}
+    hooks = {VU.vect: havoc('vect', lambda fresh, v1, v2: (fresh('n1'), fresh('n2'), fresh('n3')),
+                            define=lambda r, v1, v2: [a == b for a, b in zip(r, cross(v1, v2))])}
 
     def cases(S):
         yield '3points', {'pt1': S.reals('x1 y1 z1'), 'pt2': S.reals('x2 y2 z2'), 'pt3': S.reals('x3 y3 z3')}
